@@ -3,7 +3,7 @@ The translated source equals the model: src/datetime/mod.rs `format_date_time` (
 implementations. `core::fmt` is modelled (trusted, DESIGN §13): `write!(f, "{x:0W}")` appends `Model.pad W x`,
 `{x}` appends `Model.showInt x` (a `char` is appended as is), and cannot fail.
 -/
-import TzVerif.Generated.Src
+import TzVerif.SrcBase
 import TzVerif.Model.DateTime
 
 namespace TzVerif.Proofs.SrcEq
